@@ -577,10 +577,50 @@ def mon_c09(t):
 def mon_c10(t):
     bad = []
     gone = set()
+    finalized = set()    # names whose object got the finalizer through a write of the controller itself (this object incarnation)
+    inflight, e3, fobj = {}, set(), {}
     for k, op in enumerate(t.ops):
         f = op.split()
         if f[0] == "cc+":
             gone.discard(f[1])
+            if k > 0 and f[1] not in {c["name"] for c in t.api[k - 1][1]}:
+                finalized.discard(f[1])
+        for e in t.fx[k]:
+            if e["kind"] == "updcc" and "OURS" in e["fins"] and e["out"] in ("ok", "aerr"):
+                finalized.add(e["name"])
+        # E3: a work queue never hands one key to two workers at once.  The op alphabet can express such schedules (a fetched
+        # item in flight while the same key is processed from the queue); what they produce is not held against the controller
+        runkey, fetched_obj = None, None
+        if f[0] == "fc":
+            inflight[f[1]] = f[2]
+            fobj[f[1]] = {c["name"]: c for c in t.cache[k][1]}.get(f[2])
+        elif f[0] == "runc":
+            key = inflight.pop(f[1], None)
+            runkey, fetched_obj = key, fobj.pop(f[1], None)
+            if key is not None and key in inflight.values():
+                e3.add(key)
+        elif f[0] == "pc" and k > 0:
+            ready = t.q[k - 1].split("/")[2]
+            if ready != "-" and ready.split(",")[0] in inflight.values():
+                e3.add(ready.split(",")[0])
+        elif f[0] in ("crash", "construct"):
+            inflight, fobj = {}, {}
+        # handling an object that is not being deleted, for a name that is already mapped, changes nothing in its entry
+        procname = None
+        if f[0] == "pc" and k > 0:
+            ready = t.q[k - 1].split("/")[2]
+            if ready != "-":
+                procname = ready.split(",")[0]
+                obj = {c["name"]: c for c in t.cache[k - 1][1]}.get(procname)
+        elif f[0] == "runc" and runkey is not None:
+            procname, obj = runkey, fetched_obj
+        if procname is not None and obj is not None and not obj["deleting"] and procname not in e3 \
+                and t.snap[k - 1] is not None and t.snap[k] is not None and t.res[k] != "3":
+            before = [en for en in t.snap[k - 1] if en["name"] == procname]
+            after = [en for en in t.snap[k] if en["name"] == procname]
+            if before and before != after:
+                bad.append({"step": k, "clause": "handling an already mapped ClusterCIDR again changed its entry",
+                            "detail": "%s: %s -> %s" % (procname, before, after), "cls": "entry-changed"})
         api_names = {c["name"] for c in t.api[k][1]}
         prev_names = {c["name"] for c in t.api[k - 1][1]} if k > 0 else set()
         for nm in prev_names - api_names:
@@ -601,7 +641,14 @@ def mon_c10(t):
                 if nm in gone and nm not in api_names and nm in live:
                     bad.append({"step": k, "clause": "a ClusterCIDR whose deletion completed still contributes a pool",
                                 "detail": nm, "cls": classify_c10(t, k, nm)})
-            # an accepted, existing, non-deleting ClusterCIDR whose creation was processed contributes exactly one
+            # an existing, non-deleting ClusterCIDR to which the controller itself added its finalizer (so it accepted the spec)
+            # contributes exactly one entry (possibly terminating, when picked up with a modified spec): handling the same
+            # object again -- stale or duplicate notification, failed write, retry -- must not lose it
+            have = {en["name"] for en in t.snap[k]}
+            for c in t.api[k][1]:
+                if c["name"] in finalized and c["name"] not in e3 and not c["deleting"] and "OURS" in c["fins"] and c["name"] not in have:
+                    bad.append({"step": k, "clause": "an existing ClusterCIDR carrying the controller's finalizer contributes no pool",
+                                "detail": c["name"], "cls": "entry-lost"})
     return bad
 
 
